@@ -244,6 +244,9 @@ static inline void auditForest(forest* f, const std::string& kind, Ctx& c, const
                 if (it == singleton.end()) continue;
                 c.count("audit_singleton_edge_checks");
                 int ck = f->getNodeLevel(e.down);
+                // (with a primed bound larger than the unprimed bound a j-singleton with j >= the unprimed size has no
+                //  matching unprimed index: a redundant unprimed node above it is legitimately skipped)
+                if (k != -ck && int(it->second) >= f->getLevelSize(-ck)) continue;
                 if (k != -ck)
                     throw Violation(K("singleton-skip"), nodeStr(f, p) + ": edge skips level " + tos(-ck) + " into singleton " + nodeStr(f, e.down));
                 if (e.idx == it->second)
